@@ -325,5 +325,77 @@ class DisabledBlockStream(Stream):
         return []
 
 
+class IsoCornersStream(Stream):
+    """Two corners the random `iso` programs never reached (engine only; expected text written out):
+    (1) render / call placed inside an overriding {% block %}: the block's context chains the base template's whole
+        scope, and the partial must still see only arguments, bound variable and global data;
+    (2) render ... with / for with NO keyword arguments and NO global data at all: the bound variable must arrive.
+    Both were genuine defects of the tree (reported by the session that seeded C15), repaired by `fix:` commits."""
+
+    name = "iso_corners"
+    exhaustive = True
+    has_model = False
+
+    def cases(self, ctx):
+        out = []
+        for via in ("render", "render-with", "render-for", "call"):
+            for levels in (1, 2):
+                for glob in (False, True):
+                    out.append({"kind": "block", "via": via, "levels": levels, "glob": glob})
+        for form in ("with", "with-as", "for", "for-as"):
+            for glob in (False, True):
+                for assigned in (False, True):
+                    out.append({"kind": "bound", "form": form, "glob": glob, "assigned": assigned})
+        return out
+
+    def impl(self, case):
+        from liquid import DictLoader, Environment
+
+        try:
+            if case["kind"] == "block":
+                use = {"render": "{% render 'p' %}", "render-with": "{% render 'p' with zz[0] as it %}", "render-for": "{% render 'p' for zz as it %}",
+                       "call": "{% macro m %}[{{ secret }}|{{ it }}|{{ g }}]{% endmacro %}{% call m %}"}[case["via"]]
+                parts = {"p": "[{{ secret }}|{{ it }}|{{ g }}]", "base": "{% assign secret = 'S' %}<{% block b %}base{% endblock %}>"}
+                child = "{% extends 'base' %}{% block b %}" + use + "{% endblock %}"
+                if case["levels"] == 2:
+                    parts["mid"] = "{% extends 'base' %}{% block b %}({{ block.super }}){% endblock %}"
+                    parts["leaf"] = "{% extends 'mid' %}{% block b %}" + use + "{% endblock %}"
+                    name = "leaf"
+                else:
+                    parts["leaf"] = child
+                    name = "leaf"
+                env = Environment(loader=DictLoader(parts), extra=True)
+                data = {"zz": [7]}
+                if case["glob"]:
+                    data["g"] = "G"
+                return {"ok": env.get_template(name).render(**data)}
+            tail = {"with": "with x", "with-as": "with x as it", "for": "for xs", "for-as": "for xs as it"}[case["form"]]
+            src = ("{% assign x = 5 %}{% assign xs = '5' | split: ',' %}" if case["assigned"] else "") + "{% render 'it' " + tail + " %}"
+            env = Environment(loader=DictLoader({"it": "[{{ it }}]"}), extra=True)
+            data = {} if case["assigned"] else {"x": 5, "xs": ["5"]}
+            if case["glob"]:
+                data["g"] = "G"
+            return {"ok": env.from_string(src).render(**data)}
+        except Exception as e:  # noqa: BLE001
+            return {"err": type(e).__name__}
+
+    def oracle(self, case, obs):
+        if case["kind"] == "block":
+            it = {"render": "", "render-with": "7", "render-for": "7", "call": ""}[case["via"]]
+            exp = "<[|" + it + "|" + ("G" if case["glob"] else "") + "]>"
+            if obs.get("ok") != exp:
+                return (f"iso|{'call' if case['via'] == 'call' else 'render'}-in-block|leak-in", f"inside an overriding block the partial rendered {obs}, documented {exp!r} (it must not see the base template's `secret`)")
+            return None
+        if obs.get("ok") != "[5]":
+            return ("iso|bound-variable-lost", f"render 'it' {case['form']} with glob={case['glob']} assigned={case['assigned']} gave {obs}, documented '[5]'")
+        return None
+
+    def tags(self, case, obs):
+        return [case["kind"]]
+
+    def shrink_candidates(self, case):
+        return []
+
+
 def streams(ctx):
-    return [IsoStream(), DisabledStream(), DisabledBlockStream()]
+    return [IsoStream(), DisabledStream(), DisabledBlockStream(), IsoCornersStream()]
